@@ -1105,6 +1105,56 @@ class Explorer:
                 done(s_, pay if some else args[1])
         return True
 
+    def filter_next(self, st, fr, b, t, cont):
+        """`for x in it.filter(pred)`: when next() of a std::iter::Filter yields Some(x), pred(&x) returned true (trusting std).
+        The predicate (a closure / fn item of this crate) is run on the payload and only its true outcomes are continued, so the
+        loop body sees the same assumptions as after `if !pred(&x) { continue; }`."""
+        from facts import callee_name
+        if not self.inline or t.get('target') is None or fr is not self.top:
+            return False
+        name = callee_name(t)
+        if not re.match(r'^<std::iter::Filter<I, P> as std::iter::Iterator>::next$', name) or len(t['args']) != 1:
+            return False
+        a0 = strip_upd(self.operand(st, fr, t['args'][0]))
+        if not (a0[0] == 'ref' and a0[1][0][0] == 'loc' and a0[1][1] == ()):
+            return False
+        loc_id = a0[1][0][2]
+        src = None
+        for e in reversed(st.path.events):
+            if e['k'] == 'loophead' and loc_id in e.get('pre', {}):
+                src = e['pre'][loc_id]
+                break
+        if src is None:
+            src = self.load(st, fr, a0[1])
+        pred = None
+        for x in walk(src):
+            if x[0] in ('call', 'pcall') and x[1].endswith('Iterator::filter') and len(x[2]) == 2:
+                pred = self._callable(x[2][1])
+                break           # the outermost adaptor is the one next() belongs to
+            if x[0] in ('call', 'pcall') and re.search(r'Iterator::(map|skip|take|rev|chain|zip|enumerate)$', x[1]):
+                break
+        if pred is None:
+            return False
+        ret = self.do_call(st, fr, b, t)
+        dest, target = t['dest'], t['target']
+        s_none = st.fork()
+        for (s_, cond) in ((s_none, ('eq', 0)), (st, ('eq', 1))):
+            dvv = ('discr', ret)
+            s_.path.conds.append((dvv, cond))
+            s_.path.events.append({'k': 'branch', 'val': dvv, 'cond': cond, 'bb': b, 'line': t['line'], 'depth': fr.evdepth})
+        self.store(s_none, self.loc_of(s_none, fr, dest), ret)
+        self._run(s_none, target, fr, cont)
+        payload = simplify(('field', ('variant', ret, 'Some'), '0'))
+
+        def after(s3, r):
+            for (s4, val, _) in self._cases(s3, fr, b, t, r, 'bool'):
+                if val:
+                    self.store(s4, self.loc_of(s4, fr, dest), ret)
+                    self._run(s4, target, fr, cont)
+                # a false outcome cannot be what Filter yielded: the path is dropped
+        self._apply(st, fr, b, t, pred, (('refval', payload),), after)
+        return True
+
     def option_try(self, st, fr, t):
         """`opt?`: <Option<T> as Try>::branch(opt) -> the option value, else None"""
         from facts import callee_name
@@ -1212,6 +1262,8 @@ class Explorer:
             elif k == 'assert':
                 self.record_assert(st, fr, b, t)
                 b = t['target']
+            elif k == 'call' and self.filter_next(st, fr, b, t, cont):
+                return
             elif k == 'call' and self.std_model(st, fr, b, t, cont):
                 return
             elif k == 'call' and self.option_try(st, fr, t) is not None:
